@@ -239,7 +239,7 @@ class C17(core.Check):
                   ['kw', B(b'THEN')], ['sp'], ['jump', 100], ['sp'], ['else'], ['sp'], ['kw', B(b'PRINT')], ['sp'],
                   ['int', 1], ['p', 58], ['rem', B(b' x')]]),
             (0, [['kw', B(b'GOTO')], ['sp'], ['jump', 65529]]), (65529, [['quote', B(b'')]]), (1, []),
-            (5, [['kw', B(b'DATA')[:0] or B(b'PRINT')], ['sp'], ['str', B(b'abc'), False]]),
+            (5, [['kw', B(b'PRINT')], ['sp'], ['str', B(b'abc'), False]]),
             (7, [['data', B(b' "a:b",c')], ['p', 58], ['kw', B(b'END')]]),
             (8, [['name', B(b'A')], ['op', 61], ['hex', 65535], ['op', 43], ['oct', 65535], ['op', 45], ['int', 32767]]),
             (9, [['kw', B(b'ON')], ['sp'], ['kw', B(b'ERL')], ['sp'], ['kw', B(b'GOSUB')], ['sp'], ['jump', 6553], ['p', 44],
@@ -326,6 +326,10 @@ class C17(core.Check):
             parts.append(t)
             if spaced and k not in ('rem', 'quote', 'data') and not (k == 'str' and not it[2]) and rng.random() < 0.25:
                 parts.append(rng.choice([b' ', b'  ']))
+        if spaced and len(b''.join(parts)) > 250:
+            # the lister cuts a listed body at 255 bytes: keep the spaced rendering well below that
+            parts = [b'%d ' % n] + [G.item_text(it) for it in items]
+            spaced = False
         hist['itext_spaced' if spaced else 'itext_case'] = hist.get('itext_spaced' if spaced else 'itext_case', 0) + 1
         return {'k': 'itext', 'syn': c['syn'], 'n': n, 'items': items, 'sp': spaced,
                 'b': list(bytearray(b''.join(parts)))}
